@@ -1,5 +1,6 @@
 import ShellOp.Drv.Worker
 import ShellOp.Model.HookQueues
+import ShellOp.Model.SetContext
 /-! Line-protocol suite for C17: the shared worker suite (`Drv/Worker`) plus the lines of the
 whole-operator cases with cluster events (queue wiring, stop request heard, late cluster events). -/
 namespace ShellOp.Drv.C17
@@ -17,6 +18,25 @@ def step (st : Worker.St) (toks : List String) : Worker.St × String :=
       let heard := sortedNames ((s.filter hearsStop).map (·.name))
       (st, s!"queues={showNats names} heard={showNats heard}")
     | _, _ => (st, "bad-op")
+  | "setctx" :: args =>
+    -- model of WithContext / Stop / NewNamedQueue / Start over the operations of the case so far (S = Stop(),
+    -- nK = NewNamedQueue(K), sK = Start of K): which queues of the set hear the stop request
+    match kv? "ops" args with
+    | some ops =>
+      let parsed : Option (List SetCtx.Op) := (strList ops).foldr (fun t acc =>
+        match acc with
+        | none => none
+        | some l =>
+          if t == "S" then some (SetCtx.Op.stop :: l)
+          else if t.startsWith "n" then (t.drop 1).toString.toNat?.map fun k => SetCtx.Op.new k :: l
+          else if t.startsWith "s" then (t.drop 1).toString.toNat?.map fun k => SetCtx.Op.start k :: l
+          else none) (some [])
+      match parsed with
+      | some l =>
+        let s := SetCtx.run false (SetCtx.init false) l
+        (st, s!"requested={s.requested} heard={showNats (sortedNames (SetCtx.heardNames s))}")
+      | none => (st, "bad-op")
+    | none => (st, "bad-op")
   | "oracle" :: "stopheard" :: args =>
     -- the stop request reached (the context of) main and every queue a binding names
     match (kv? "want" args).bind natList?, (kv? "heard" args).bind natList? with
